@@ -290,6 +290,7 @@ func (f *Frame) execInstr(ins ssa.Instruction, st *State, reach Term) {
 		f.vals[x] = f.unop(x, st, reach)
 	case *ssa.Call:
 		f.vals[x] = f.call(x, &x.Call, st, reach)
+		f.callInv(&x.Call, st, reach, x.Pos())
 	case *ssa.ChangeInterface:
 		v := f.term(x.X, st)
 		ns := f.vc.sorts.sortOf(x.Type())
@@ -407,13 +408,45 @@ func (f *Frame) execInstr(ins ssa.Instruction, st *State, reach Term) {
 	case *ssa.Send:
 		f.vc.note("%s: channel send not modelled", funcKey(f.fn))
 	case *ssa.Select:
-		f.vc.note("%s: select not modelled (heap havocked)", funcKey(f.fn))
-		havocInPlace(st, "select")
+		// sequential view: which case fires and what is received are unconstrained; the
+		// heap is what this goroutine left it (other goroutines are outside the model)
+		f.vc.note("%s: select: chosen case and received values unconstrained (sequential view)", funcKey(f.fn))
 		f.vals[x] = f.havocValue(x.Type(), x.Name())
 	case *ssa.Panic:
 		f.execPanic(x, st, reach)
 	default:
 		f.unsupported(ins, fmt.Sprintf("%T", ins))
+	}
+}
+
+// callInv emits the `callinv` obligations of the function under verification
+// after a call (also a call made by an inlined callee): the ghost-state
+// invariant holds at every point between two external effects.
+func (f *Frame) callInv(c *ssa.CallCommon, st *State, reach Term, pos token.Pos) {
+	con := f.vc.con
+	if con == nil || len(con.CallInvs) == 0 || f.vc.topEnv == nil {
+		return
+	}
+	if _, isB := c.Value.(*ssa.Builtin); isB {
+		return
+	}
+	what := "dynamic"
+	if callee := c.StaticCallee(); callee != nil {
+		what = funcKey(callee)
+	} else if c.IsInvoke() {
+		what = c.Method.Name()
+	}
+	env := f.vc.topEnv.clone()
+	env.st = st
+	for i, cl := range con.CallInvs {
+		t, err := env.trBool(cl.Text)
+		if err != nil {
+			f.vc.failed = fmt.Errorf("%s: callinv %q: %v", cl.Line, cl.Text, err)
+			return
+		}
+		name := fmt.Sprintf("callinv#%s@%s%s", clauseName(cl, i), f.prefix, f.vc.site("after:"+what))
+		f.vc.oblige("callinv", name, mergeTags(cl.Tags, f.tags), reach, t, f.pos(pos)).Desc = cl.Text
+		f.vc.assume(tImp(reach, t))
 	}
 }
 
@@ -537,12 +570,12 @@ func (f *Frame) execAlloc(x *ssa.Alloc, st *State) {
 			fs := f.vc.sorts.sortOf(stt.Field(i).Type())
 			key := f.compKey("F:", ssort+"."+stt.Field(i).Name(), fs)
 			old := st.get(key)
-			st.set(key, f.vc.define(key, T(old.Sort, "(store %s %s %s)", old.S, r.S, f.zeroOf(stt.Field(i).Type()).S)))
+			st.set(key, f.vc.storeTerm(key, old, r, f.zeroOf(stt.Field(i).Type())))
 		}
 	} else {
 		key := f.compKey("D:", sortTag(srt), srt)
 		old := st.get(key)
-		st.set(key, f.vc.define(key, T(old.Sort, "(store %s %s %s)", old.S, r.S, f.zeroOf(elem).S)))
+		st.set(key, f.vc.storeTerm(key, old, r, f.zeroOf(elem)))
 	}
 	f.vals[x] = r
 }
@@ -558,7 +591,7 @@ func (f *Frame) loadStruct(p Term, t types.Type, st *State) Term {
 	for i := 0; i < stt.NumFields(); i++ {
 		fs := f.vc.sorts.sortOf(stt.Field(i).Type())
 		key := f.compKey("F:", ssort+"."+stt.Field(i).Name(), fs)
-		parts = append(parts, fmt.Sprintf("(select %s %s)", st.get(key).S, p.S))
+		parts = append(parts, f.vc.sel(st.get(key), p, fs).S)
 	}
 	return T(ssort, "(mk.%s %s)", ssort, strings.Join(parts, " "))
 }
@@ -571,7 +604,7 @@ func (f *Frame) storeStruct(p Term, t types.Type, v Term, st *State, reach Term,
 		key := f.compKey("F:", ssort+"."+stt.Field(i).Name(), fs)
 		f.frameCheck(key, p, st, reach, pos)
 		old := st.get(key)
-		st.set(key, f.vc.define(key, T(old.Sort, "(store %s %s (%s.%s %s))", old.S, p.S, ssort, smtName(stt.Field(i).Name()), v.S)))
+		st.set(key, f.vc.storeTerm(key, old, p, T(fs, "(%s.%s %s)", ssort, smtName(stt.Field(i).Name()), v.S)))
 	}
 }
 
